@@ -126,7 +126,7 @@ pub fn run(args: &[String]) {
             .stderr(Stdio::from(open("stderr.bin")))
             .spawn()
             .expect("spawn route-child");
-        // watchdog: no trace progress for 60 s = hang
+        // backstop watchdog (the child reports hangs of a single step itself): no trace progress for 60 s
         let mut last_len = 0u64;
         let mut last_change = Instant::now();
         let status = loop {
@@ -162,16 +162,18 @@ pub fn run(args: &[String]) {
             })
             .unwrap_or((skip, -1));
         let (lsc, ln) = repair_trace(&trace);
-        let n = if lsc == scid { ln + 1 } else { 1 };
-        let ret = match status {
-            None => "hang".to_string(),
-            Some(st) => format!("crash:{st}"),
-        };
-        let mut f = std::fs::OpenOptions::new()
-            .append(true)
-            .open(&trace)
-            .unwrap();
-        writeln!(f, "{}", json!({"ev": "Crash", "sc": scid, "n": n, "ret": ret})).unwrap();
+        if status.and_then(|s| s.code()) != Some(EXIT_HANG_REPORTED) {
+            let n = if lsc == scid { ln + 1 } else { 1 };
+            let ret = match status {
+                None => "hang".to_string(),
+                Some(st) => format!("crash:{st}"),
+            };
+            let mut f = std::fs::OpenOptions::new()
+                .append(true)
+                .open(&trace)
+                .unwrap();
+            writeln!(f, "{}", json!({"ev": "Crash", "sc": scid, "n": n, "ret": ret})).unwrap();
+        }
         skip = idx + 1;
     }
     let text = std::fs::read_to_string(&trace).unwrap_or_default();
@@ -213,6 +215,13 @@ impl Tail {
         v
     }
 }
+
+/// sequence number of the last event the scenario thread wrote (watched by the child's main thread)
+static LAST_N: std::sync::atomic::AtomicU64 = std::sync::atomic::AtomicU64::new(0);
+/// the step the scenario thread is executing (op / rec / brace), for the hang report
+static CUR_STEP: Mutex<Option<Value>> = Mutex::new(None);
+/// exit code of the child after it reported a hang itself
+const EXIT_HANG_REPORTED: i32 = 3;
 
 struct Env {
     out: std::fs::File,
@@ -257,9 +266,41 @@ pub fn run_child(args: &[String]) {
             }
             let envr = &mut env;
             let scr = &sc;
+            LAST_N.store(0, Ordering::SeqCst);
+            let (tx, rx) = std::sync::mpsc::channel::<()>();
             let hd = b
-                .spawn_scoped(s, move || run_scenario(scr, envr))
+                .spawn_scoped(s, move || {
+                    let r = run_scenario(scr, envr);
+                    let _ = tx.send(());
+                    r
+                })
                 .expect("spawn scenario thread");
+            // a step of the code under test that makes no progress for 5 s is a hang (e.g. a deadlock):
+            // data, not a harness failure - report it, leave, and let the parent restart behind it
+            let mut seen = 0u64;
+            let mut since = Instant::now();
+            loop {
+                match rx.recv_timeout(Duration::from_millis(200)) {
+                    Ok(()) | Err(std::sync::mpsc::RecvTimeoutError::Disconnected) => break,
+                    Err(std::sync::mpsc::RecvTimeoutError::Timeout) => {
+                        let n = LAST_N.load(Ordering::SeqCst);
+                        if n != seen {
+                            seen = n;
+                            since = Instant::now();
+                        } else if since.elapsed() > Duration::from_secs(5) {
+                            if let Ok(mut f) = std::fs::OpenOptions::new().append(true).open(trace) {
+                                let _ = writeln!(
+                                    f,
+                                    "{}",
+                                    json!({"ev": "Crash", "sc": scr["sc"], "n": n + 1, "ret": "hang",
+                                           "step": CUR_STEP.lock().ok().and_then(|g| g.clone()).unwrap_or(json!({"op": "?"}))})
+                                );
+                            }
+                            std::process::exit(EXIT_HANG_REPORTED);
+                        }
+                    }
+                }
+            }
             let _ = hd.join();
         });
     }
@@ -373,6 +414,7 @@ struct RecSpec {
     kvs: Vec<(String, Kv)>,
     msg: String,
     recursive: bool,
+    inner_target: String, // target of the record the Display implementation logs
 }
 
 thread_local! {
@@ -384,13 +426,14 @@ thread_local! {
 fn inner_spec(outer: &RecSpec, k: u32) -> RecSpec {
     RecSpec {
         lvl: outer.lvl,
-        target: "m".to_string(),
+        target: outer.inner_target.clone(),
         mp: Some("m".to_string()),
         file: Some("inner.rs".to_string()),
         line: Some(k),
         kvs: Vec::new(),
         msg: format!("inner record {k}"),
         recursive: false,
+        inner_target: String::new(),
     }
 }
 
@@ -829,6 +872,7 @@ fn run_scenario(sc: &Value, env: &mut Env) -> usize {
         let mut line = v.to_string();
         line.push('\n');
         env.out.write_all(line.as_bytes()).unwrap();
+        LAST_N.store(n as u64, Ordering::SeqCst);
     };
 
     // ---- build the logger
@@ -945,6 +989,8 @@ fn run_scenario(sc: &Value, env: &mut Env) -> usize {
             "file" => lg.log_to_file(fs),
             "pw" => lg.log_to_writer(pw()),
             "both" => lg.log_to_file_and_writer(fs, pw()),
+            "stdout" => lg.log_to_stdout(),
+            "stderr" => lg.log_to_stderr(),
             _ => lg.do_not_log(),
         };
         if has_file {
@@ -1035,6 +1081,11 @@ fn run_scenario(sc: &Value, env: &mut Env) -> usize {
     let steps = sc["steps"].as_array().cloned().unwrap_or_default();
     for st in steps {
         let op = gs(&st, "op", "?").to_string();
+        if let Ok(mut g) = CUR_STEP.lock() {
+            *g = Some(json!({"op": op, "rec": gb(&st, "rec", false), "brace": gb(&st, "brace", false),
+                "toks": st.get("toks").cloned().unwrap_or(json!([])),
+                "itoks": st.get("itoks").cloned().unwrap_or(json!([]))}));
+        }
         let mut ev = json!({"ev": op});
         let ret: String = match op.as_str() {
             "Log" => {
@@ -1074,6 +1125,13 @@ fn run_scenario(sc: &Value, env: &mut Env) -> usize {
                             .collect()
                     })
                     .unwrap_or_default();
+                // target of the inner record of a recursive call (default: plain "m")
+                let ibrace = gb(&st, "ibrace", false);
+                let itoks: Vec<String> = st["itoks"]
+                    .as_array()
+                    .map(|a| a.iter().map(|x| x.as_str().unwrap_or("").to_string()).collect())
+                    .unwrap_or_default();
+                let iplain = gs(&st, "iplain", "m").to_string();
                 let rs = RecSpec {
                     lvl: level_of(lvl),
                     target,
@@ -1083,6 +1141,11 @@ fn run_scenario(sc: &Value, env: &mut Env) -> usize {
                     kvs: kvs.clone(),
                     msg: msg.clone(),
                     recursive: gb(&st, "rec", false),
+                    inner_target: if ibrace {
+                        format!("{{{}}}", itoks.join(","))
+                    } else {
+                        iplain.clone()
+                    },
                 };
                 ev["id"] = json!(id);
                 ev["lvl"] = json!(lvl);
@@ -1091,6 +1154,9 @@ fn run_scenario(sc: &Value, env: &mut Env) -> usize {
                 ev["plain"] = json!(plain);
                 ev["mod"] = json!(module);
                 ev["rec"] = json!(rs.recursive);
+                ev["ibrace"] = json!(ibrace);
+                ev["itoks"] = json!(itoks);
+                ev["iplain"] = json!(iplain);
                 let t = hh.get_clock();
                 ev["t"] = json!(t);
                 // expected bytes: the public format function, called here, same instant, plus line ending
@@ -1231,7 +1297,8 @@ fn run_scenario(sc: &Value, env: &mut Env) -> usize {
                         }
                         let mut x = json!({"sink": name, "fmt": o.fmt, "n": chunks.len(),
                             "hex": hex(&all), "le": hex(o.le.as_bytes()),
-                            "defer": asyncm && is_file});
+                            "defer": asyncm && (is_file || (primary == "stdout" && name == "out")
+                                || (primary == "stderr" && name == "err"))});
                         if o.fmt == "syslog" {
                             x["exp"] = json!("");
                             x["dec"] = if chunks.len() == 1 {
